@@ -171,6 +171,12 @@ func RandUnknownAVP(r *rand.Rand) AVP {
 		a.Flags |= 128
 		a.Vendor = B4([]uint32{4242, 1, 0x7fffffff, 0xffffffff, 0}[r.Intn(5)])
 	}
+	if r.Intn(4) == 0 {
+		// a code the base dictionary defines, under a vendor nobody defines: a different, undefined AVP
+		a.Code = B4([]uint32{268, 55, 257, 260, 263, 264, 1, 27, 279, 284}[r.Intn(10)])
+		a.Flags |= 128
+		a.Vendor = B4([]uint32{4242, 193, 0x7fffffff}[r.Intn(3)])
+	}
 	return a
 }
 
